@@ -27,6 +27,8 @@ Definition gross_value (ps : prices) (t : withdraw_trace) : Z :=
   wt_long_gross t * pr_max (px_long ps) + wt_short_gross t * pr_max (px_short ps).
 
 Definition ordered (p : price) : Prop := pr_min p <= pr_max p.
+Definition ordered_prices (ps : prices) : Prop :=
+  ordered (px_index ps) /\ ordered (px_long ps) /\ ordered (px_short ps).
 
 Lemma rt_arith S m P0 P1 A V X mtv : 0 <= S -> 0 < m -> 0 <= mtv ->
   (S + m) * mtv <= P1 * m -> P1 <= P0 + A -> P0 * m <= S * V -> V <= X -> A <= X -> mtv <= X.
